@@ -88,7 +88,7 @@ def _job(args):
         r = cli.run_breadlog(cfg, check=check, cwd=cwd, tmpdir=tmp, timeout=30)
         after = cli.snapshot(root)
         diff = cli.snapshot_diff(before, after)
-        rep = cli.Report(r.stdout)
+        rep = cli.Report(r.stdout, bases=[os.path.join(proj, sd) if not os.path.isabs(sd) else sd, cwd, proj], err=r.stderr)
         reported = sorted({os.path.normpath(os.path.join(cwd, f)) if not os.path.isabs(f) else os.path.normpath(f) for f, _, _ in rep.missing})
         res.append((subset, en, sf, cf, cw, check, r.exit, r.signal, r.panicked,
                     [(k, a is None, b is None) for k, a, b in diff if not ((a or b)[0] == "d" and a is not None and b is not None)],
@@ -176,7 +176,7 @@ def _cfglink_job(args):
     r = cli.run_breadlog(cfg, check=check, cwd=cwd, tmpdir=tmp, timeout=30)
     after = cli.snapshot(root, with_meta=False)
     changed = sorted(k for k, a, b in cli.snapshot_diff(before, after) if not ((a or b)[0] == "d" and a is not None and b is not None))
-    rep = cli.Report(r.stdout)
+    rep = cli.Report(r.stdout, bases=[os.path.join(app, "src"), cwd, app], err=r.stderr)
     reported = sorted({os.path.relpath(os.path.normpath(os.path.join(cwd, f)), root) for f, _, _ in rep.missing})
     shutil.rmtree(work, ignore_errors=True)
     return naming, check, r.exit, r.panicked, changed, reported
@@ -208,7 +208,7 @@ def _symlink_job(args):
     r = cli.run_breadlog(cfg, check=check, cwd=cwd, tmpdir=tmp, timeout=30)
     after = cli.snapshot(root)
     diff = [k for k, a, b in cli.snapshot_diff(before, after) if not ((a or b)[0] == "d" and a is not None and b is not None)]
-    rep = cli.Report(r.stdout)
+    rep = cli.Report(r.stdout, bases=[real_src, trap_src, os.path.join(root, "real", "src"), cwd], err=r.stderr)
     reported = sorted({os.path.basename(f) for f, _, _ in rep.missing})
     shutil.rmtree(work, ignore_errors=True)
     return sd, cf, cw, check, r.exit, r.panicked, sorted(diff), reported
